@@ -38,6 +38,8 @@ static std::vector<Plan> splitThreads(const Plan& plan, int n)
             if (c.tag == "cfg")
             {
                 c.erase("locale");  // the global locale is process state: not changed while several threads run
+                if (plan.cfgGet("shareinput", 0))
+                    c.set("shareinput", 1);
                 char buf[8];
                 snprintf(buf, sizeof buf, "C%02d", static_cast<int>(c.get("propn", 1)));
                 s.prop = buf;
